@@ -162,4 +162,46 @@ Unframe(tr, w) == IF tr = 0 THEN Unslip(w, <<>>)
                        IN IF ~p.ok \/ Len(w) - p.used < p.len THEN [st |-> "eof", frame |-> <<>>]
                           ELSE [st |-> "ok", frame |-> SubSeq(w, p.used + 1, p.used + p.len)]
 
+(* ------------------------------------------------------------------ one receive/process/free cycle *)
+RECURSIVE FlatW(_, _)
+FlatW(tr, fs) == IF fs = <<>> THEN <<>> ELSE Wire(tr, Head(fs)) \o FlatW(tr, Tail(fs))
+(* observation: rc errid allocs frees badfree live ncalls <call> -7 <reply wire> *)
+RxObs(tr, rc, errid, allocs, call, replies) ==
+    <<rc, errid, allocs, allocs, 0, 0, IF call = <<>> THEN 0 ELSE 1>> \o call \o <<-7>> \o FlatW(tr, replies)
+
+(* the set of observations the specification allows for this input *)
+RxAllowedFor(cfg, allocFail, verdict0, vaddr, dataIn, wireIn) ==
+    LET u == Unframe(cfg.tr, wireIn)
+        o == u.frame
+        hdr == Take(o, MinOf(Len(o), 16))
+    IN IF u.st # "ok"
+       THEN \* channel error: returned as an error, any block already obtained is released by the receiver
+            {RxObs(cfg.tr, -1, 0, k, <<>>, <<>>) : k \in (IF o = <<>> /\ cfg.tr = 0 THEN {0} ELSE {0, 1})}
+       ELSE IF o = <<>>
+       THEN {RxObs(cfg.tr, 0, C_ENC, k, <<>>, <<MetaMessage(cfg.tr, M_HEADERENC)>>) : k \in {0, 1}}
+       ELSE IF allocFail
+       THEN \* claimed for well-formed requests only: busy response echoing sequence and address
+            IF Classes(o) = {C_OK} /\ IsRequest(o)
+            THEN {RxObs(cfg.tr, 0, 16, 0, <<>>, <<ErrResponse(cfg.tr, Fields(o).type, EBUSY, Fields(o).sq, Fields(o).addr, <<0, 0>>)>>)}
+            ELSE {<<-9>>}
+       ELSE IF Len(o) > cfg.cap
+       THEN IF cfg.cap >= 16 /\ Len(o) >= 16 /\ Classes(o) \cap {C_ENC, C_HDCRC} = {} /\ IsRequest(o)
+            THEN {RxObs(cfg.tr, 0, 12, 1, <<>>, <<ErrResponse(cfg.tr, Fields(o).type, code, Fields(o).sq, Fields(o).addr, <<0, cfg.cap>>)>>)
+                    : code \in {ERXOVERFLOW}}
+                 \cup {RxObs(cfg.tr, 0, 12, 1, <<>>, <<FrameOctets(RespType(Fields(o).type), Opts(cfg.tr, FALSE, FALSE), ERXOVERFLOW,
+                                                            Fields(o).sq, Fields(o).addr, <<0, 0>>, <<>>)>>)}
+            ELSE {<<-9>>}
+       ELSE UNION {
+              LET f == Fields(o)
+                  isRead == cls = C_OK /\ Len(o) >= 12 /\ f.type = T_RREQ /\ (Has(f.opts, O_WS16) <=> cfg.mem16)
+                  served == {TRUE, FALSE} \ ((IF isRead /\ ReadFits(cfg, o) THEN {FALSE} ELSE {})
+                                             \cup (IF isRead /\ ReadTooBig(cfg, o) THEN {TRUE} ELSE {})
+                                             \cup (IF ~isRead THEN {FALSE} ELSE {}))
+              IN {LET call == IF isRead /\ ~sv THEN <<>> ELSE IF Len(o) >= 12 THEN BackendCall(cfg, o, cls) ELSE <<>>
+                      verdict == IF isRead /\ ~sv THEN ETXOVERFLOW ELSE verdict0
+                      data == IF isRead /\ sv /\ verdict0 = ACK THEN Take(dataIn \o Fill(8192, 225), f.bs[2] * WordSize(f.opts)) ELSE <<>>
+                      replies == IF Len(o) < 12 THEN <<MetaMessage(cfg.tr, M_HEADERENC)>> ELSE ReplyFor(cfg, o, cls, verdict, vaddr, data)
+                  IN RxObs(cfg.tr, 0, cls, 1, call, replies) : sv \in served}
+              : cls \in Classes(o)}
+
 =============================================================================
